@@ -19,14 +19,14 @@ import (
 type tblField struct{ GoName, Iface string }
 type tblType struct {
 	Name, Vocab, VocabURI, Struct string
-	Fields                       []tblField
-	Typeless                     bool
+	Fields                        []tblField
+	Typeless                      bool
 }
 type tblMember struct{ Field, GoType, Kind string }
 type tblProp struct {
 	Name, Vocab, VocabURI, Struct string
-	Functional, HasMap  bool
-	Members             []tblMember
+	Functional, HasMap            bool
+	Members                       []tblMember
 }
 type tables struct {
 	Types []tblType
@@ -349,6 +349,57 @@ func runC12() {
 		fmt.Fprintf(&b, " (%s, %s)", coqStr(p.Name), coqNats(codes))
 	}
 	b.WriteString("\n].\n")
+	// ---- B2: an IRI is an IRI whatever its scheme; a language map is an object of strings and nothing else
+	kindsOf := func(ty *tblType, p tblProp, key string, val interface{}) (string, bool) {
+		doc := map[string]interface{}{"@context": allContexts, "type": ty.Name, key: val}
+		v, err, pk := toType(doc)
+		s.Evaluations++
+		if pk {
+			return "panic", true
+		}
+		if err != nil || v == nil {
+			return "error", true
+		}
+		out, ok := call(v, getterOf(ty, p))
+		if !ok || isNilVal(out[0]) {
+			return "unknown", true
+		}
+		el, n := firstElem(out[0].Interface(), p.Functional)
+		if n != 1 || el == nil {
+			return "unknown", true
+		}
+		ks := observedKinds(el)
+		sort.Strings(ks)
+		return strings.Join(ks, "+"), true
+	}
+	for _, p := range t.Props {
+		ty := hostType(p, t)
+		if ty == nil || p.Name == "type" {
+			continue
+		}
+		ref, _ := kindsOf(ty, p, p.Name, "https://example.org/iri")
+		for _, iri := range []string{"urn:uuid:6e8bc430-9c3a-11d9-9669-0800200c9a66", "mailto:alice@example.org", "acct:alice@example.org", "magnet:?xt=urn:btih:c12fe1", "tag:example.org,2020:x", "did:example:123", "http://[::1]:8080/x", "https://example.org"} {
+			got, _ := kindsOf(ty, p, p.Name, iri)
+			if got != ref {
+				s.Violations = append(s.Violations, Violation{What: fmt.Sprintf("property %s reads the IRI %s as %s but an https IRI as %s: an absolute IRI of any scheme is an IRI", p.Name, iri, got, ref),
+					Sig: "C12:iri-scheme:" + p.Name, Replay: map[string]interface{}{"type": ty.Name, "property": p.Name, "value": iri}})
+				break
+			}
+		}
+		if p.HasMap {
+			for _, key := range []string{p.Name, p.Name + "Map"} {
+				for _, val := range []interface{}{map[string]interface{}{"en": "x", "n": 5.0}, map[string]interface{}{"en": []interface{}{"a"}}, map[string]interface{}{"en": "x", "o": map[string]interface{}{"k": "v"}},
+					map[string]interface{}{"type": "Image", "url": "https://example.org/i.png", "width": 5.0}} {
+					got, _ := kindsOf(ty, p, key, val)
+					if strings.Contains(got, "@langstring") {
+						s.Violations = append(s.Violations, Violation{What: fmt.Sprintf("property %s reads an object with a member that is no string as a language map", key),
+							Sig: "C12:langmap-nonstring:" + p.Name, Replay: map[string]interface{}{"type": ty.Name, "property": key, "value": val}})
+						break
+					}
+				}
+			}
+		}
+	}
 	// ---- C: arrays: (property, functional, len reported, kind code of first element)
 	b.WriteString("(* C: a two-element array given to every property: (name, elements held (functional: 1), reports a known kind) *)\n")
 	b.WriteString("Definition obs_arrays : list (string * nat * bool) := [\n")
